@@ -67,6 +67,58 @@ def export_tables():
     return model, leaf, node
 
 
+def conditional_exports():
+    """key -> sorted list of the conditions under which get_state_dict writes it (keys written unconditionally are absent).
+    A key that is exported only under a condition must be restored to the value a FRESH model has when the condition is false;
+    the accepted table is CONDITIONAL_EXPORTS_OK (each entry justified there)."""
+    xsrc = ast.parse(open(os.path.join(REPO, 'xrfm/xrfm.py')).read())
+    fn = None
+    for c in xsrc.body:
+        if isinstance(c, ast.ClassDef) and c.name == 'xRFM':
+            for it in c.body:
+                if isinstance(it, ast.FunctionDef) and it.name == 'get_state_dict':
+                    fn = it
+    if fn is None:
+        raise af.TranslationError('get_state_dict not found')
+    out = {}
+    def walk(stmts, conds):
+        for st in stmts:
+            if isinstance(st, ast.If):
+                walk(st.body, conds + [ast.unparse(st.test)])
+                walk(st.orelse, conds + ['not (' + ast.unparse(st.test) + ')'])
+            elif isinstance(st, (ast.For, ast.While, ast.With, ast.Try)):
+                for n in ast.walk(st):
+                    if isinstance(n, ast.Subscript) and isinstance(n.value, ast.Name) and n.value.id == 'state_dict' and isinstance(n.ctx, ast.Store):
+                        raise af.TranslationError(f'get_state_dict: state_dict written inside a compound statement at line {st.lineno}')
+            elif conds:
+                for n in ast.walk(st):
+                    if isinstance(n, ast.Subscript) and isinstance(n.value, ast.Name) and n.value.id == 'state_dict' and isinstance(n.ctx, (ast.Store, ast.Del)) \
+                            and isinstance(n.slice, ast.Constant):
+                        out.setdefault(n.slice.value, []).append(' and '.join(conds))
+                    if isinstance(n, ast.Call) and isinstance(n.func, ast.Attribute) and isinstance(n.func.value, ast.Name) and n.func.value.id == 'state_dict' \
+                            and n.func.attr in ('pop', 'update', 'setdefault', '__setitem__', '__delitem__', 'clear'):
+                        raise af.TranslationError(f'get_state_dict: state_dict.{n.func.attr}(...) under a condition at line {st.lineno}')
+            else:
+                for n in ast.walk(st):
+                    if isinstance(n, ast.Call) and isinstance(n.func, ast.Attribute) and isinstance(n.func.value, ast.Name) and n.func.value.id == 'state_dict' \
+                            and n.func.attr in ('pop', '__delitem__', 'clear'):
+                        raise af.TranslationError(f'get_state_dict: state_dict.{n.func.attr}(...) at line {st.lineno}')
+                    if isinstance(n, ast.IfExp) or isinstance(n, ast.DictComp):
+                        if any(isinstance(m, ast.Name) and m.id == 'state_dict' for m in ast.walk(st)):
+                            raise af.TranslationError(f'get_state_dict: conditional expression in a state_dict statement at line {st.lineno}')
+                if isinstance(st, ast.Delete) and any(isinstance(m, ast.Name) and m.id == 'state_dict' for m in ast.walk(st)):
+                    raise af.TranslationError(f'get_state_dict: del on state_dict at line {st.lineno}')
+    walk(fn.body, [])
+    return {k: sorted(v) for k, v in out.items()}
+
+
+# conditionally exported keys and why the fresh model's value is right when the key is absent:
+#  solver            absent <=> no solver in rfm_params (constructor-only, identical in the fresh model); load uses .get('solver', None)
+#  classification_*  absent <=> regression (n_classes_ == 0, itself exported unconditionally); load reads them under the same condition
+CONDITIONAL_EXPORTS_OK = {'solver': ["'solver' in self.rfm_params['fit']", "'solver' in self.rfm_params['model']"],
+                          'classification_mode': ['self.n_classes_ > 0'], 'class_converter': ['self.n_classes_ > 0']}
+
+
 def load_tables():
     """attribute path written <- state-dict key, for the model level and the leaf level"""
     xsrc = ast.parse(open(os.path.join(REPO, 'xrfm/xrfm.py')).read())
